@@ -48,7 +48,7 @@ Definition fbind {A B} (r : fres A) (f : A -> fres B) : fres B :=
 Fixpoint le_enc (n : nat) (x : N) : list N :=
   match n with
   | O => []
-  | S k => (x mod 256) :: le_enc k (x / 256)
+  | S k => N.land x 255 :: le_enc k (N.shiftr x 8)     (* = x mod 256 :: le_enc k (x / 256) *)
   end.
 (* `uN::from_le_bytes` *)
 Fixpoint le_dec (l : list N) : N :=
@@ -60,7 +60,9 @@ Definition be_dec (l : list N) : N := le_dec (rev l).
 Definition be_enc (n : nat) (x : N) : list N := rev (le_enc n x).
 
 (* `z as uW` (two's complement) and `n as iW` for a W-bit pattern n *)
-Definition to_bits (w : N) (z : Z) : N := Z.to_N (z mod 2 ^ Z.of_N w).
+(* [Z.land z (2^w - 1)] = z mod 2^w, two's complement for negative z (FormatsProofs.to_bits_mod);
+   written with bit operations because the boundary cases of the run evaluate it ~10^5 times *)
+Definition to_bits (w : N) (z : Z) : N := Z.to_N (Z.land z (Z.ones (Z.of_N w))).
 Definition of_bits (w : N) (n : N) : Z :=
   if n <? 2 ^ (w - 1) then Z.of_N n else (Z.of_N n - 2 ^ Z.of_N w)%Z.
 
